@@ -3,6 +3,7 @@ import json
 import os
 import re
 import subprocess
+import threading
 import time
 
 from .common import SPECS, scratch, MachineryError
@@ -38,20 +39,26 @@ class TLCResult:
 
 
 _counter = [0]
+_lock = threading.Lock()
 
 
 def run(module, cfg, *, workers=None, env=None, timeout=600, simulate=None, depth=None,
         coverage=False, extra=(), jvm=(), spec_dir=SPECS, seed=None):
     """cfg: text of a TLC configuration file.  simulate: None or number of behaviours."""
-    _counter[0] += 1
-    work = os.path.join(scratch(), f"tlc{_counter[0]}")
+    with _lock:
+        _counter[0] += 1
+        work = os.path.join(scratch(), f"tlc{_counter[0]}")
     os.makedirs(work, exist_ok=True)
     cfg_path = os.path.join(work, module + ".cfg")
     with open(cfg_path, "w") as f:
         f.write(cfg)
     if workers is None:
         workers = os.cpu_count() or 4
-    cmd = ["java", "-XX:+UseParallelGC", "-Xss16m", *jvm, "-cp", JAR, "tlc2.TLC",
+    # measured on this box: the serial collector is 2-5x faster for wide model-checking runs
+    # (ParallelGC/G1 spend most of their time in the kernel); JSON-heavy trace validation is
+    # fastest with 4 workers and 4 parallel GC threads.
+    gc = list(jvm) if any("GC" in o for o in jvm) else ["-XX:+UseSerialGC", *jvm]
+    cmd = ["java", *gc, "-Xmx12g", "-Xss16m", "-cp", JAR, "tlc2.TLC",
            "-workers", str(workers), "-metadir", os.path.join(work, "meta"),
            "-noGenerateSpecTE", "-config", cfg_path]
     if simulate is not None:
@@ -162,3 +169,28 @@ def require_ok(res, what):
         raise MachineryError(f"TLC failed on {what}:\n" + res.raw[-3000:])
     if res.rc != 0 and not res.errors:
         raise MachineryError(f"TLC exit {res.rc} on {what}:\n" + res.raw[-3000:])
+
+
+def simulate_behaviours(module, cfg, num, depth, wanted, seed=0, workers=4, timeout=900,
+                        spec_dir=SPECS):
+    """Let TLC generate `num` random behaviours per worker of `module` (simulation mode) and return
+    them as lists of states (dict var -> parsed value) restricted to the `wanted` variables."""
+    import glob
+    import shutil
+    from . import tlaval
+    with _lock:
+        _counter[0] += 1
+        out = os.path.join(scratch(), f"sim{_counter[0]}")
+    os.makedirs(out, exist_ok=True)
+    res = run(module, cfg, workers=workers, timeout=timeout, depth=depth, spec_dir=spec_dir,
+              extra=["-simulate", f"file={out}/b,num={num}", "-seed", str(seed)])
+    require_ok(res, f"{module} -simulate")
+    if res.errors:
+        raise MachineryError(f"{module} -simulate reported: {res.errors[:2]}\n{res.raw[-2000:]}")
+    m = re.search(r"The number of states generated: (\d+)", res.raw)
+    res.generated = int(m.group(1)) if m else 0
+    behs = []
+    for path in sorted(glob.glob(os.path.join(out, "b_*"))):
+        behs.append(tlaval.behaviour_file(path, set(wanted)))
+    shutil.rmtree(out, ignore_errors=True)
+    return res, behs
